@@ -31,6 +31,13 @@ use std::time::{Duration, Instant};
 use tree::*;
 
 const F_ALLOC: &str = "C14-jacoco-branch-vector-alloc";
+/// `get_xml_attribute(.., "sourcefilename").unwrap_or(format!("{}.java", top_class))` swallows EVERY
+/// error of the lookup, also "the value cannot be decoded": in a report that is not UTF-8 (ISO-8859-1
+/// with `encoding="ISO-8859-1"`, well-formed XML) a class whose `sourcefilename` has a non-ASCII
+/// character is silently attributed to `<TopLevelClass>.java` instead of an error. Matcher: Latin-1
+/// rendering of a generated document; the result is `Ok` and equals the meaning of the document in
+/// which exactly the classes with an undecodable `sourcefilename` value have lost that attribute.
+const F_SFN: &str = "C10-undecodable-sourcefilename-falls-back";
 /// Observations OUTSIDE the property's quantifier ("methods with names unique within their class",
 /// "the method's line attribute"): such documents are generated, run on the real parser and tied
 /// to the model, but the property oracle does not judge them; they are counted as
@@ -489,6 +496,81 @@ pub fn run(rep: &mut Report) {
         });
     }
 
+    // ---- repeated attributes / unreachable attribute syntax errors that do not change the meaning ----------
+    // (/repo ae885a6: attributes are iterated `with_checks(false)`; `get_xml_attribute` = first match,
+    // the `<line>` loop = last wins). Property oracle: the result is the meaning of the UNMUTATED tree.
+    let n_dup = rep.budget(700, 10);
+    let mut made = 0;
+    let mut tries = 0;
+    while made < n_dup && tries < 20 * n_dup {
+        tries += 1;
+        let mut g = G::new(rng.fork());
+        let doc = gen_doc(&mut g, &Cfg::small());
+        if outside_quantifier(&doc).is_some() {
+            continue;
+        }
+        let spec = spec_of(&doc);
+        let mut nodes = lower(&doc);
+        let mut labels: Vec<String> = vec![];
+        for _ in 0..g.rng.range(1, 3) {
+            for _ in 0..8 {
+                if let Some(l) = mutate_preserving(&mut g, &mut nodes) {
+                    labels.push(l);
+                    break;
+                }
+            }
+        }
+        if labels.is_empty() {
+            continue;
+        }
+        made += 1;
+        let toks = tokens(&nodes);
+        let xml = xml_of(&toks);
+        let events = events_of(&toks);
+        self_check(rep, "dupattr.preserving", &xml, &events);
+        let imp = run_impl(&xml);
+        rep.case(&fhex(&xml), true);
+        for l in &labels {
+            rep.count(&format!("dupattr.preserving.{}", l));
+        }
+        rep.count(&format!("dupattr.preserving.outcome.{}", imp.split(' ').take(if imp.starts_with("err") { 2 } else { 1 }).collect::<Vec<_>>().join(" ")));
+        let c = Case { stream: format!("dupattr.preserving[{}]", labels.join("+")), request: request_of(&events), xml, spec: Some(spec.clone()), imp, child: false, timeout_ms: 0 };
+        if c.imp != spec {
+            rep.fail(
+                "oracle",
+                None,
+                format!("a repeated attribute behind the first of its name (for <line>: before the last), a repeated unread attribute or an attribute syntax error behind the wanted attributes changed the result ({})", labels.join(", ")),
+                case_json(&c, ""),
+            );
+        }
+        cases.push(c);
+    }
+
+    // ---- many attributes on one element: linear (review item 11; before ae885a6 quadratic) ---------------------
+    {
+        let k = 100_000;
+        let mut x = String::from("<report><package ");
+        for i in 0..k {
+            x.push_str(&format!("a{:06}=\"\" ", i));
+        }
+        x.push_str("name=\"p\"><sourcefile name=\"A.java\"><line nr=\"1\" mi=\"0\" ci=\"1\" mb=\"0\" cb=\"0\"/></sourcefile></package></report>");
+        let t0 = Instant::now();
+        let imp = run_impl(x.as_bytes());
+        let ms = t0.elapsed().as_millis();
+        rep.case("witness many_attributes 100000", true);
+        rep.count("witness.many_attributes");
+        rep.notes.push(format!("witness many_attributes: {} attributes on <package> ({} bytes) read in {} ms", k, x.len(), ms));
+        let want = "ok K702f412e6a617661=L1:1;B;F";
+        if imp != want || ms > 5000 {
+            rep.fail(
+                "oracle",
+                None,
+                format!("a <package> start tag with {} attributes (the wanted one last): result '{}' after {} ms; expected '{}' within 5000 ms (attribute work is linear since /repo ae885a6)", k, truncate_str(&imp, 80), ms, want),
+                json!({"op": "jacoco.many_attributes", "attributes": k, "impl": truncate_str(&imp, 200), "ms": ms as u64, "spec": want}),
+            );
+        }
+    }
+
     // ---- malformed stream ---------------------------------------------------------------------------------
     let m = rep.budget(1500, 10);
     for _ in 0..m {
@@ -588,6 +670,7 @@ pub fn run(rep: &mut Report) {
         ties::parsenum_tie(rep, &mut rng);
         ties::isjacoco_tie(rep, &mut rng, &isj_samples);
     }
+    encoding_ties(rep, &mut rng);
 
     // ---- named findings ------------------------------------------------------------------------------------------
     // corpus: witnesses of the former hang; anything but `err Parse` is a plain violation
@@ -610,6 +693,130 @@ pub fn run(rep: &mut Report) {
     rep.notes.push("every event list sent to the model is checked against quick-xml's own tokenizer on the same bytes (harness.serialiser_mismatch counts differences: none expected)".into());
     if !no_model {
         bytes::run(rep);
+    }
+}
+
+/// removes the `sourcefilename` of every class whose raw attribute value has a non-ASCII character
+/// (undecodable once the document is written in ISO-8859-1); returns how many
+fn drop_undecodable_sfn(items: &mut Vec<TItem>) -> usize {
+    let mut n = 0;
+    for it in items.iter_mut() {
+        match it {
+            TItem::Package(p) => {
+                for pi in p.body.iter_mut() {
+                    if let PItem::Class(c) = pi {
+                        let raw_bad = c.shell.attr("sourcefilename").map(|a| !a.raw.is_ascii()).unwrap_or(false);
+                        if c.sfn.is_some() && raw_bad {
+                            c.sfn = None;
+                            n += 1;
+                        }
+                    }
+                }
+            }
+            TItem::Wrap(_, b) => n += drop_undecodable_sfn(b),
+            TItem::Junk(_) => {}
+        }
+    }
+    n
+}
+
+fn truncate_str(s: &str, n: usize) -> String {
+    s.chars().take(n).collect()
+}
+
+/// Review item 35: `C10_fidelity_bytes` is about UTF-8 serialisations. /repo builds quick-xml without
+/// its `encoding` feature, so a report in another encoding is read as bytes. What the reader does
+/// with one: UTF-16 (BOM, every markup byte followed/preceded by 00) never shows an element it knows
+/// - `Ok([])`, a silent empty result (observation, counted) - or an error; ISO-8859-1 reads like the
+/// UTF-8 twin while the names the parser decodes are ASCII, and is `Err` as soon as one is not.
+/// Oracle: error or empty (UTF-16) / error or the document's meaning (Latin-1) - never a wrong record.
+fn encoding_ties(rep: &mut Report, rng: &mut Rng) {
+    let n = rep.budget(120, 10);
+    let mut made = 0;
+    let mut tries = 0;
+    while made < n && tries < 50 * n {
+        tries += 1;
+        let mut g = G::new(rng.fork());
+        let doc = gen_doc(&mut g, &Cfg::small());
+        if outside_quantifier(&doc).is_some() {
+            continue;
+        }
+        let spec = spec_of(&doc);
+        let xml = xml_of(&tokens(&lower(&doc)));
+        let text = match String::from_utf8(xml) {
+            Ok(t) => t,
+            Err(_) => continue,
+        };
+        let body = text.trim_start_matches(|c| c != '<');
+        let body = if body.starts_with("<?xml") { body.splitn(2, "?>").nth(1).unwrap_or("") } else { body };
+        match made % 3 {
+            0 | 1 => {
+                let le = made % 3 == 0;
+                let full = format!("<?xml version=\"1.0\" encoding=\"UTF-16\"?>{}", body);
+                let mut bytes: Vec<u8> = if le { vec![0xFF, 0xFE] } else { vec![0xFE, 0xFF] };
+                for u in full.encode_utf16() {
+                    bytes.extend_from_slice(&if le { u.to_le_bytes() } else { u.to_be_bytes() });
+                }
+                let imp = run_impl(&bytes);
+                rep.case(&fhex(&bytes), true);
+                let kind = if imp == "ok" {
+                    if spec == "ok" { "empty_as_it_should" } else { "observation.silently_empty" }
+                } else if imp.starts_with("err") {
+                    "error"
+                } else {
+                    "WRONG"
+                };
+                rep.count(&format!("ties.encoding.utf16{}.{}", if le { "le" } else { "be" }, kind));
+                if kind == "WRONG" {
+                    rep.fail(
+                        "oracle",
+                        None,
+                        "a UTF-16 JaCoCo report (not a UTF-8 serialisation) must be an error or give nothing; it gave records".into(),
+                        json!({"op": "jacoco", "stream": "ties.encoding.utf16", "xml_hex": fhex(&bytes), "xml": full, "impl": imp, "spec": "ok"}),
+                    );
+                }
+            }
+            _ => {
+                if text.chars().any(|c| c as u32 > 0xFF) {
+                    continue;
+                }
+                let full = format!("<?xml version=\"1.0\" encoding=\"ISO-8859-1\"?>{}", body);
+                let bytes: Vec<u8> = full.chars().map(|c| c as u32 as u8).collect();
+                let imp = run_impl(&bytes);
+                rep.case(&fhex(&bytes), true);
+                let ascii = bytes.is_ascii();
+                let mut kind = if imp == spec {
+                    if ascii { "ascii_same_as_utf8" } else { "non_ascii_only_in_unread_places" }
+                } else if imp.starts_with("err") && !ascii {
+                    "error"
+                } else {
+                    "WRONG"
+                };
+                if kind == "WRONG" && imp.starts_with("ok") {
+                    let mut d2 = doc.clone();
+                    if drop_undecodable_sfn(&mut d2.top) > 0 && imp == spec_of(&d2) {
+                        kind = "finding.undecodable_sourcefilename_falls_back";
+                        rep.count(F_SFN);
+                        rep.fail(
+                            "oracle",
+                            Some(F_SFN),
+                            "ISO-8859-1 report: a <class> whose sourcefilename value is not valid UTF-8 is silently attributed to <TopLevelClass>.java (the decoding error is swallowed by unwrap_or) instead of Err".into(),
+                            json!({"op": "finding.c10", "finding": F_SFN, "stream": "ties.encoding.latin1", "xml_hex": fhex(&bytes), "xml": full, "impl": imp, "spec": "err Parse"}),
+                        );
+                    }
+                }
+                rep.count(&format!("ties.encoding.latin1.{}", kind));
+                if kind == "WRONG" {
+                    rep.fail(
+                        "oracle",
+                        None,
+                        "an ISO-8859-1 JaCoCo report must be an error or read like its UTF-8 twin".into(),
+                        json!({"op": "jacoco", "stream": "ties.encoding.latin1", "xml_hex": fhex(&bytes), "xml": full, "impl": imp, "spec": spec}),
+                    );
+                }
+            }
+        }
+        made += 1;
     }
 }
 
@@ -706,7 +913,13 @@ pub fn replay(rep: &mut Report, case: &Value) {
             let xml = unhex(&s("xml_hex"));
             let imp = run_impl(&xml);
             rep.case(&fhex(&xml), true);
-            let id = if s("finding") == F_ALLOC { Some(F_ALLOC) } else { None };
+            let id = if s("finding") == F_ALLOC {
+                Some(F_ALLOC)
+            } else if s("finding") == F_SFN {
+                Some(F_SFN)
+            } else {
+                None
+            };
             if imp == s("impl") {
                 rep.fail("oracle", id, format!("the recorded witness still gives '{}'", imp), case.clone());
             }
